@@ -110,10 +110,11 @@ PROPS["C01"] = eval_prop("C01", ["proofs/AnchorsSitesMemo.v"], ["C01", "C01_flat
 PROPS["C02"] = eval_prop("C02", ["proofs/AnchorsSitesMemo.v"], ["C02", "C02_flat"],
     "C02: every active rule whose from-scratch condition is true is reported as candidate in each firing cycle, and at the quiescent exit no active rule's "
     "condition holds on the final facts; proved via the refinement theorem. Harness as for C01 plus multi-resource knowledge bases and chained activations.")
-PROPS["C04"] = eval_prop("C04", [], ["C04", "C04_flat"],
+PROPS["C04"] = eval_prop("C04", ["proofs/StoreExact.v"], ["C04", "C04_flat", "C04_integer_store_exact_signed", "C04_integer_store_exact_unsigned"],
     "C04: the action list with the working memory equals the in-order from-scratch list; each successful assignment computes its value on the current facts "
     "and write_target stores it (converted to the destination kind) at exactly the addressed path, every diverging path unchanged (lens laws). The harness "
-    "compares all addressed locations and the frame on the caller's own Go objects.")
+    "compares all addressed locations and the frame on the caller's own Go objects; integers in range of an integer destination of either family arrive "
+    "bit for bit (StoreExact.v; probes with magnitudes above 2^53).")
 PROPS["C05"] = eval_prop("C05", ["proofs/AnchorsValues.v", "proofs/StringBuiltins.v"], ["C05_string_builtins", "C05_operators", "C05_binary", "C05_and_short_circuit", "C05_or_short_circuit", "C05_parentheses",
                                                           "C05_negation", "C05_arguments", "C05_grammar_levels", "C05_published_table_partial", "C05_published_table_refuted"],
     "C05: the operator functions regenerated from pkg/reflectmath.go compute the independently written documented semantics (doc_bin) for operands of "
@@ -395,7 +396,7 @@ MANIFEST_TEXT = {
     ),
     "C01": _eval_text("every execution is of an active rule whose condition, evaluated from scratch on the facts of that moment, is true (from any memory contents)."),
     "C02": _eval_text("each active rule whose from-scratch condition is true is a candidate of its cycle; at a quiescent exit no active rule's condition holds on the final facts."),
-    "C04": _eval_text("actions run in textual order on the facts left by the previous one; an assignment stores exactly the computed (converted) value at exactly the addressed path, all diverging paths unchanged."),
+    "C04": _eval_text("actions run in textual order on the facts left by the previous one; an assignment stores exactly the computed (converted) value at exactly the addressed path, all diverging paths unchanged; an integer in range of an integer destination of either family arrives bit for bit (C04_integer_store_exact_*)."),
     "C05": _eval_text("the operators regenerated from reflectmath.go compute the documented semantics for every operand width; short-circuit, negation, parentheses, argument order; grammar levels match the published table except `&` (recorded finding D4)."),
     "C07": _eval_text("snapshot sharing is injective on trees, and a rule inside any knowledge base decides and does what its own text does on the facts."),
     "C08": _eval_text("Execute/FetchMatchingRules on an instance with arbitrary remembered values and Retracted flags equal the call on a fresh instance; Fetch leaves the facts alone."),
